@@ -90,6 +90,9 @@ func (v *FnVC) callCommon(c *ssa.CallCommon, val ssa.Value, pos token.Pos, how s
 	v.ghostAtCall(site, "before", pnames, args)
 
 	fc := v.w.cs.Funcs[key]
+	if fc != nil && len(fc.ParamNames) == len(args) {
+		pnames = fc.ParamNames
+	}
 	var results []Term
 	mkResults := func() {
 		for i := 0; i < sig.Results().Len(); i++ {
@@ -573,6 +576,29 @@ func (v *FnVC) appendBuiltin(c *ssa.CallCommon, rt types.Type, pos token.Pos) Te
 		srcAt = func(k string) string {
 			return fmt.Sprintf("(select (select %s (sl_ref %s)) (idx %s %s))", heap, t.S, t.S, k)
 		}
+	}
+	if k, ok := staticSliceLen(c.Args[1]); ok && k <= 8 && !isString(t.T) {
+		// exact model for a statically known number of appended elements: no quantifier for the in-place case
+		room := v.define("app.room", "Bool", fmt.Sprintf("(<= (+ (sl_len %s) %d) (sl_cap %s))", s.S, k, s.S))
+		fresh := v.allocRef("app.new")
+		oldArr := fmt.Sprintf("(select %s (sl_ref %s))", heap, s.S)
+		inplace := oldArr
+		for i := int64(0); i < k; i++ {
+			inplace = fmt.Sprintf("(store %s (+ (sl_off %s) (sl_len %s) %d) %s)", inplace, s.S, s.S, i, srcAt(strconv.FormatInt(i, 10)))
+		}
+		copied := v.fresh("app.copy")
+		v.declare(copied, "(Array Int "+es+")")
+		v.assume(fmt.Sprintf("(forall ((j Int)) (! (=> (and (<= 0 j) (< j (sl_len %s))) (= (select %s j) (select %s (+ (sl_off %s) j)))) :pattern ((select %s j))))", s.S, copied, oldArr, s.S, copied))
+		grown := copied
+		for i := int64(0); i < k; i++ {
+			grown = fmt.Sprintf("(store %s (+ (sl_len %s) %d) %s)", grown, s.S, i, srcAt(strconv.FormatInt(i, 10)))
+		}
+		newcap := v.fresh("app.cap")
+		v.declare(newcap, "Int")
+		v.assume(fmt.Sprintf("(>= %s (+ (sl_len %s) %d))", newcap, s.S, k))
+		res := v.define("app.res", "Slice", fmt.Sprintf("(ite %s (mk_slice (sl_ref %s) (sl_off %s) (+ (sl_len %s) %d) (sl_cap %s)) (mk_slice %s 0 (+ (sl_len %s) %d) %s))", room, s.S, s.S, s.S, k, s.S, fresh, s.S, k, newcap))
+		v.set(key, v.heapSort(key), fmt.Sprintf("(ite %s (store %s (sl_ref %s) %s) (store %s %s %s))", room, heap, s.S, inplace, heap, fresh, grown))
+		return Term{res, rt}
 	}
 	n = v.define("app.n", "Int", n)
 	room := v.define("app.room", "Bool", fmt.Sprintf("(<= (+ (sl_len %s) %s) (sl_cap %s))", s.S, n, s.S))
